@@ -22,6 +22,7 @@ func init() {
 		NotDecided:  "error probabilities, rounding, the Phred<->Solexa conversion tables, and the byte-level arithmetic inside each case (value-level).",
 		Assumptions: []string{"Encode's guarded `q += K` and Decode's `x - K` are the only offset arithmetic in their cases (otherwise UNDECIDED)"},
 		Run: func(c *Ctx) {
+			c.guard("signround", func() { ruleSignRound(c, "signround"); c.floor("signround", 2) })
 			c.guard("tables/quality", func() { ruleQuality(c) })
 		},
 	})
@@ -83,6 +84,10 @@ func init() {
 			c.guard("convpair", func() { ruleConvPair(c, "convpair"); c.floor("convpair", 12) })
 			c.guard("bufalias", func() { ruleBufAlias(c, "bufalias", "io/featio/bed", "io/featio/gff"); c.floor("bufalias", 2) })
 			c.guard("directsink", func() { ruleDirectSink(c, "directsink", "io/featio/bed", "io/featio/gff"); c.floor("directsink", 2) })
+			c.guard("noskip", func() {
+				ruleNoSkip(c, "noskip", [][2]string{{"io/featio/bed", "(*Reader).Read"}, {"io/featio/gff", "(*Reader).Read"}})
+				c.floor("noskip", 2)
+			})
 			c.guard("zerocolour", func() { ruleZeroColour(c, "zerocolour"); c.floor("zerocolour", 1) })
 			c.guard("bytecount", func() { ruleByteCount(c, "bytecount", "io/featio/bed", "io/featio/gff"); c.floor("bytecount", 28) })
 		},
@@ -146,6 +151,7 @@ func init() {
 				}, "seq/alignment", "seq/multi", "seq/linear")
 				c.floor("fresh/retain", 7)
 			})
+			c.guard("padfromends", func() { rulePadFromEnds(c, "padfromends"); c.floor("padfromends", 3) })
 			c.guard("fresh/periter", func() {
 				for _, t := range [][2]string{
 					{"seq/alignment", "(*Seq).AppendColumns"}, {"seq/alignment", "(*Seq).AppendEach"},
@@ -282,6 +288,8 @@ func init() {
 		Run: func(c *Ctx) {
 			c.guard("tables/ukkonen", func() { ruleUkkonen(c, "tables/ukkonen"); c.floor("tables/ukkonen", 2) })
 			c.guard("emitguard", func() { ruleFilterEmit(c, "emitguard"); c.floor("emitguard", 6) })
+			// the filter's hits are handed to a morass sorter: none may be lost between Push and Pull
+			c.guard("gojoin", func() { ruleMorassJoin(c, "gojoin"); c.floor("gojoin", 1) })
 			c.guard("gridperiod", func() { ruleGridPeriod(c, "gridperiod"); c.floor("gridperiod", 1) })
 			c.guard("runstate", func() { ruleRunState(c, "runstate"); c.floor("runstate", 1) })
 		},
